@@ -29,7 +29,10 @@ def gen_case(rs, tier):
     faults = []
     if krng.random() < 0.25:
         faults = gen_faults(W.stream(rs, "faults"))
-    return {"design": ast, "knobs": knobs, "strategies": strategies, "n": krng.choice([1, 2, 2, 5]), "faults": faults}
+    case = {"design": ast, "knobs": knobs, "strategies": strategies, "n": krng.choice([1, 2, 2, 5]), "faults": faults}
+    case["tier"] = tier
+    case["sweep"] = W.stream(rs, "sweep").random() < (0.15 if tier == "thorough" else 0.04)
+    return case
 
 
 def gen_faults(frng):
@@ -61,7 +64,7 @@ def check_sequences(m, res, strat):
     return None
 
 
-def run_case(case):
+def run_one(case):
     ast = case["design"]
     m = refsem.elaborate(ast)
     if m.status == "rejected":
@@ -101,6 +104,16 @@ def run_case(case):
             return base
         base["outcome"] = "ok"
         return base
+
+
+SWEEP_KINDS = ['fs.enospc', 'fs.eio', 'fs.eacces', 'fs.vanish', 'peer.raise', 'peer.unknown', 'peer.memory', 'stdout.epipe']
+
+
+def run_case(case):
+    """A sweep case runs the workload fault-free and then once per (operation index x fault kind) placement."""
+    if case.get("sweep"):
+        return common.fault_sweep(run_one, case, SWEEP_KINDS, cap=160 if case.get("tier") == "thorough" else 60)
+    return run_one(case)
 
 
 def shrink_candidates(case):
